@@ -52,34 +52,34 @@ Notation meq := (Sums.meq F).
 Ltac env := unfold E in *; cbn [fF f0 f1 fadd fmul fsub fopp fdiv finv fltb fsqrt fabs fminv feig_all_gt] in *.
 
 (* Sums lemmas at this field *)
-Let S_sum_ext := sum_ext F F0 Fadd.
-Let S_sum_add := sum_add F F0 F1 Fadd Fmul Fsub Fopp Fdiv Finv Fth.
-Let S_sum_sub := sum_sub F F0 F1 Fadd Fmul Fsub Fopp Fdiv Finv Fth.
-Let S_sum_scal_l := sum_scal_l F F0 F1 Fadd Fmul Fsub Fopp Fdiv Finv Fth.
-Let S_sum_scal_r := sum_scal_r F F0 F1 Fadd Fmul Fsub Fopp Fdiv Finv Fth.
-Let S_sum_div_r := sum_div_r F F0 F1 Fadd Fmul Fsub Fopp Fdiv Finv Fth.
-Let S_sum_swap := sum_swap F F0 F1 Fadd Fmul Fsub Fopp Fdiv Finv Fth.
-Let S_dot_comm := dot_comm F F0 F1 Fadd Fmul Fsub Fopp Fdiv Finv Fth.
-Let S_dot_vsub_l := dot_vsub_l F F0 F1 Fadd Fmul Fsub Fopp Fdiv Finv Fth.
-Let S_dot_vsub_r := dot_vsub_r F F0 F1 Fadd Fmul Fsub Fopp Fdiv Finv Fth.
-Let S_dot_vadd_l := dot_vadd_l F F0 F1 Fadd Fmul Fsub Fopp Fdiv Finv Fth.
-Let S_dot_vadd_r := dot_vadd_r F F0 F1 Fadd Fmul Fsub Fopp Fdiv Finv Fth.
-Let S_dot_vscal_l := dot_vscal_l F F0 F1 Fadd Fmul Fsub Fopp Fdiv Finv Fth.
-Let S_dot_vscal_r := dot_vscal_r F F0 F1 Fadd Fmul Fsub Fopp Fdiv Finv Fth.
-Let S_dot_vneg_l := dot_vneg_l F F0 F1 Fadd Fmul Fsub Fopp Fdiv Finv Fth.
-Let S_mv_outer := matvec_outer F F0 F1 Fadd Fmul Fsub Fopp Fdiv Finv Fth.
-Let S_mv_madd := matvec_madd F F0 F1 Fadd Fmul Fsub Fopp Fdiv Finv Fth.
-Let S_mv_msub := matvec_msub F F0 F1 Fadd Fmul Fsub Fopp Fdiv Finv Fth.
-Let S_mv_mscal := matvec_mscal F F0 F1 Fadd Fmul Fsub Fopp Fdiv Finv Fth.
-Let S_mv_mdivs := matvec_mdivs F F0 F1 Fadd Fmul Fsub Fopp Fdiv Finv Fth.
-Let S_mv_vsub := matvec_vsub F F0 F1 Fadd Fmul Fsub Fopp Fdiv Finv Fth.
-Let S_mv_ident := matvec_ident F F0 F1 Fadd Fmul Fsub Fopp Fdiv Finv Fth.
-Let S_dot_mv_transpose := dot_matvec_transpose F F0 F1 Fadd Fmul Fsub Fopp Fdiv Finv Fth.
-Let S_dot_mv_sym := dot_matvec_sym F F0 F1 Fadd Fmul Fsub Fopp Fdiv Finv Fth.
-Let S_vm_transpose := vecmat_is_matvec_transpose F F0 F1 Fadd Fmul Fsub Fopp Fdiv Finv Fth.
-Let S_vm_sym := vecmat_sym F F0 F1 Fadd Fmul Fsub Fopp Fdiv Finv Fth.
-Let S_mm_mv := matmul_matvec F F0 F1 Fadd Fmul Fsub Fopp Fdiv Finv Fth.
-Let S_dot_ext := dot_ext F F0 Fadd Fmul.
+Local Notation S_sum_ext := (sum_ext F F0 Fadd).
+Local Notation S_sum_add := (sum_add F F0 F1 Fadd Fmul Fsub Fopp Fdiv Finv Fth).
+Local Notation S_sum_sub := (sum_sub F F0 F1 Fadd Fmul Fsub Fopp Fdiv Finv Fth).
+Local Notation S_sum_scal_l := (sum_scal_l F F0 F1 Fadd Fmul Fsub Fopp Fdiv Finv Fth).
+Local Notation S_sum_scal_r := (sum_scal_r F F0 F1 Fadd Fmul Fsub Fopp Fdiv Finv Fth).
+Local Notation S_sum_div_r := (sum_div_r F F0 F1 Fadd Fmul Fsub Fopp Fdiv Finv Fth).
+Local Notation S_sum_swap := (sum_swap F F0 F1 Fadd Fmul Fsub Fopp Fdiv Finv Fth).
+Local Notation S_dot_comm := (dot_comm F F0 F1 Fadd Fmul Fsub Fopp Fdiv Finv Fth).
+Local Notation S_dot_vsub_l := (dot_vsub_l F F0 F1 Fadd Fmul Fsub Fopp Fdiv Finv Fth).
+Local Notation S_dot_vsub_r := (dot_vsub_r F F0 F1 Fadd Fmul Fsub Fopp Fdiv Finv Fth).
+Local Notation S_dot_vadd_l := (dot_vadd_l F F0 F1 Fadd Fmul Fsub Fopp Fdiv Finv Fth).
+Local Notation S_dot_vadd_r := (dot_vadd_r F F0 F1 Fadd Fmul Fsub Fopp Fdiv Finv Fth).
+Local Notation S_dot_vscal_l := (dot_vscal_l F F0 F1 Fadd Fmul Fsub Fopp Fdiv Finv Fth).
+Local Notation S_dot_vscal_r := (dot_vscal_r F F0 F1 Fadd Fmul Fsub Fopp Fdiv Finv Fth).
+Local Notation S_dot_vneg_l := (dot_vneg_l F F0 F1 Fadd Fmul Fsub Fopp Fdiv Finv Fth).
+Local Notation S_mv_outer := (matvec_outer F F0 F1 Fadd Fmul Fsub Fopp Fdiv Finv Fth).
+Local Notation S_mv_madd := (matvec_madd F F0 F1 Fadd Fmul Fsub Fopp Fdiv Finv Fth).
+Local Notation S_mv_msub := (matvec_msub F F0 F1 Fadd Fmul Fsub Fopp Fdiv Finv Fth).
+Local Notation S_mv_mscal := (matvec_mscal F F0 F1 Fadd Fmul Fsub Fopp Fdiv Finv Fth).
+Local Notation S_mv_mdivs := (matvec_mdivs F F0 F1 Fadd Fmul Fsub Fopp Fdiv Finv Fth).
+Local Notation S_mv_vsub := (matvec_vsub F F0 F1 Fadd Fmul Fsub Fopp Fdiv Finv Fth).
+Local Notation S_mv_ident := (matvec_ident F F0 F1 Fadd Fmul Fsub Fopp Fdiv Finv Fth).
+Local Notation S_dot_mv_transpose := (dot_matvec_transpose F F0 F1 Fadd Fmul Fsub Fopp Fdiv Finv Fth).
+Local Notation S_dot_mv_sym := (dot_matvec_sym F F0 F1 Fadd Fmul Fsub Fopp Fdiv Finv Fth).
+Local Notation S_vm_transpose := (vecmat_is_matvec_transpose F F0 F1 Fadd Fmul Fsub Fopp Fdiv Finv Fth).
+Local Notation S_vm_sym := (vecmat_sym F F0 F1 Fadd Fmul Fsub Fopp Fdiv Finv Fth).
+Local Notation S_mm_mv := (matmul_matvec F F0 F1 Fadd Fmul Fsub Fopp Fdiv Finv Fth).
+Local Notation S_dot_ext := (dot_ext F F0 Fadd Fmul).
 
 (* ------------------------------------------------------------------------------------------ *)
 (* literals                                                                                     *)
@@ -480,6 +480,11 @@ Lemma bfgs_guard n (h h_inv : mat) (s y : vec) :
   BFGSUpdate_conditions_met E n h h_inv s y = negb (Fltb (dot n y s) 0).
 Proof. unfold BFGSUpdate_conditions_met. rewrite cst_0_1. env. destruct (Fltb _ _); reflexivity. Qed.
 
+Lemma sr1_guard n (h h_inv : mat) (s y : vec) :
+  SR1Update_conditions_met E n h h_inv s y =
+  Fltb (cst E 1 100000000 * vnorm E n s * vnorm E n (vsub y (matvec n h s))) (Fabs (dot n s (vsub y (matvec n h s)))).
+Proof. reflexivity. Qed.
+
 Lemma always_applicable n (h h_inv : mat) (s y : vec) :
   BofillUpdate_conditions_met E n h h_inv s y = true /\ FlowchartUpdate_conditions_met E n h h_inv s y = true /\
   BFGSSR1Update_conditions_met E n h h_inv s y = true.
@@ -709,6 +714,35 @@ Proof.
   rewrite !outer_written by assumption. reflexivity.
 Qed.
 
+Add Field FfEmbed : Fth.
+
+Lemma half_double (x : F) : Fadd F1 F1 <> F0 -> Fdiv (Fadd x x) (Fadd F1 F1) = x.
+Proof. intros H2. field. exact H2. Qed.
+
+Lemma full_space_untouched_sym (idxs : list nat) N (m m_sub : mat) i j :
+  Fadd F1 F1 <> F0 -> Sums.symmetric F N m -> (i < N)%nat -> (j < N)%nat ->
+  ~ (In i idxs /\ In j idxs) -> matrix_in_full_space E idxs m m_sub i j = m i j.
+Proof.
+  intros H2 Hs Hi Hj Hout. rewrite full_space_untouched by exact Hout.
+  rewrite (Hs j i) by assumption. apply half_double. exact H2.
+Qed.
+
+Lemma full_space_block_sym (idxs : list nat) (m m_sub : mat) a b :
+  Fadd F1 F1 <> F0 -> NoDup idxs -> Sums.symmetric F (length idxs) m_sub ->
+  (a < length idxs)%nat -> (b < length idxs)%nat ->
+  matrix_in_full_space E idxs m m_sub (nth a idxs 0%nat) (nth b idxs 0%nat) = m_sub a b.
+Proof.
+  intros H2 Hnd Hs Ha Hb. rewrite full_space_block by assumption.
+  rewrite (Hs b a) by assumption. apply half_double. exact H2.
+Qed.
+
+Lemma full_space_symmetric N (idxs : list nat) (m m_sub : mat) :
+  Sums.symmetric F N (matrix_in_full_space E idxs m m_sub).
+Proof.
+  rewrite full_space_is_loops.
+  apply (ensure_hermitian_symmetric F F0 F1 Fadd Fmul Fsub Fopp Fdiv Finv Fth Fltb Fsqrt Fabs Fminv Feig).
+Qed.
+
 Lemma sub_m_entry (idxs : list nat) (x : mat) a b :
   sub_m E idxs x a b = x (nth a idxs 0%nat) (nth b idxs 0%nat).
 Proof. reflexivity. Qed.
@@ -732,4 +766,177 @@ Proof.
       * destruct IH as [i [Hj [Hn Hlt]]]. exists (S i). repeat split; [lia|exact Hn|].
         intros i' Hi'. destruct i' as [|i']; [exists m; reflexivity|]. apply Hlt. lia.
       * intros c' m'' [Heq|Hin]; [congruence|]. exact (IH c' m'' Hin).
+Qed.
+
+(* ---- the public properties updated_h / updated_h_inv of HessianUpdater, composed from the generated
+   pieces by the hand model Model.full_update ---- *)
+Definition impl_updated_h (E : fenv) (upd : nat -> Mat E -> Mat E -> Vec E -> Vec E -> Mat E)
+    (subspace : option (list nat)) (n : nat) (h h_inv : Mat E) (s y : Vec E) : Mat E :=
+  full_update (sub_m E) (sub_v E) (matrix_in_full_space E) upd subspace n h h h_inv s y.
+Definition impl_updated_h_inv (E : fenv) (upd : nat -> Mat E -> Mat E -> Vec E -> Vec E -> Mat E)
+    (subspace : option (list nat)) (n : nat) (h h_inv : Mat E) (s y : Vec E) : Mat E :=
+  full_update (sub_m E) (sub_v E) (matrix_in_full_space E) upd subspace n h_inv h h_inv s y.
+
+Ltac open_env E :=
+  destruct E; cbn [fF f0 f1 fadd fmul fsub fopp fdiv finv fltb fsqrt fabs fminv feig_all_gt] in *.
+
+(* ------------------------------------------------------------------------------------------ *)
+(* degenerate step information, decided on the model at exact rationals                         *)
+From Coq Require Import QArith Qcanon Lqa.
+From AV.lib Require Import QcInst.
+
+Section QcDegenerate.
+Variable sq : Qc -> Qc.
+Variable mi : nat -> (nat -> nat -> Qc) -> nat -> nat -> Qc.
+Variable eg : nat -> (nat -> nat -> Qc) -> Qc -> bool.
+Let QE := QcEnv sq mi eg.
+Local Open Scope Qc_scope.
+
+Lemma Qcltb_true a b : Qcltb a b = true -> a < b.
+Proof.
+  unfold Qcltb. intros H. apply negb_true_iff in H.
+  apply Qcnot_le_lt. intro Hle. unfold Qcle in Hle. apply Qle_bool_iff in Hle. congruence.
+Qed.
+
+Lemma Qc_mul_nonneg a b : 0 <= a -> 0 <= b -> 0 <= a * b.
+Proof.
+  intros Ha Hb. replace 0 with (0 * b) by ring. apply Qcmult_le_compat_r; assumption.
+Qed.
+
+Lemma Qcabs_0 : Qcabs 0 = 0.
+Proof. reflexivity. Qed.
+
+(* SR1: the guard |s.(y-Hs)| > r |s| |y-Hs| excludes a zero denominator (hessian_update.py:293, 341) *)
+Lemma sr1_guard_nonzero n (h h_inv : nat -> nat -> Qc) (s y : nat -> Qc) :
+  (forall x, 0 <= sq x) ->
+  SR1Update_conditions_met QE n h h_inv s y = true ->
+  all_nonzero QE (SR1Update_updated_h_denoms QE n h h_inv s y).
+Proof.
+  intros Hsq Hc. unfold SR1Update_updated_h_denoms. cbv zeta.
+  unfold all_nonzero. constructor; [|constructor].
+  unfold SR1Update_conditions_met in Hc. cbv zeta in Hc. unfold vnorm in Hc.
+  unfold QE, QcEnv in *. cbn [fF f0 f1 fadd fmul fsub fopp fdiv finv fltb fsqrt fabs] in *.
+  intro Hz.
+  rewrite (dot_comm Qc 0 1 Qcplus Qcmult Qcminus Qcopp Qcdiv Qcinv Qcft n s (vsub _ _ _ _)) in Hc.
+  rewrite Hz, Qcabs_0 in Hc.
+  set (r := cst _ 1 100000000) in *.
+  assert (Hr : 0 <= r) by (subst r; unfold Qcle; vm_compute; discriminate).
+  clearbody r. apply Qcltb_true in Hc.
+  apply (Qclt_not_le _ _ Hc).
+  apply Qc_mul_nonneg; [apply Qc_mul_nonneg|]; [exact Hr | apply Hsq | apply Hsq].
+Qed.
+
+Definition one1 : nat -> nat -> Qc := fun _ _ => 1.
+Definition v0 : nat -> Qc := fun _ => 0.
+Definition v1 : nat -> Qc := fun _ => 1.
+
+Definition has_zero (l : list Qc) : Prop := Exists (fun d => d = 0) l.
+
+(* BFGS: a zero step passes conditions_met (y.s < 0 is false) and both divisors of _updated_h are 0 *)
+Lemma bfgs_zero_step :
+  BFGSUpdate_conditions_met QE 1 one1 one1 v0 v1 = true /\
+  BFGSUpdate_updated_h_denoms QE 1 one1 one1 v0 v1 = [0; 0].
+Proof. split; vm_compute; reflexivity. Qed.
+
+(* ... and so does a non-zero step orthogonal to the gradient change (n = 2) *)
+Definition e1 : nat -> Qc := fun i => match i with O => 1 | _ => 0 end.
+Definition e2 : nat -> Qc := fun i => match i with S O => 1 | _ => 0 end.
+Definition id2 : nat -> nat -> Qc := fun i j => if Nat.eqb i j then 1 else 0.
+Lemma bfgs_orthogonal_step :
+  BFGSUpdate_conditions_met QE 2 id2 id2 e1 e2 = true /\
+  has_zero (BFGSUpdate_updated_h_denoms QE 2 id2 id2 e1 e2).
+Proof. split; [vm_compute; reflexivity|]. constructor. vm_compute. reflexivity. Qed.
+
+(* the positive-definite variants evaluate _updated_h inside conditions_met: the guard itself divides by 0 *)
+Lemma bfgspd_zero_step m :
+  has_zero (BFGSPDUpdate_conditions_met_denoms QE 1 one1 one1 v0 v1 m) /\
+  has_zero (BFGSDampedUpdate_conditions_met_denoms QE 1 one1 one1 v0 v1 m).
+Proof.
+  split.
+  - constructor. vm_compute. reflexivity.
+  - unfold BFGSDampedUpdate_conditions_met_denoms, BFGSDampedUpdate_updated_h_denoms. cbv zeta.
+    apply Exists_exists. exists 0. split; [|reflexivity].
+    apply in_or_app. left. apply in_or_app. right. left. vm_compute. reflexivity.
+Qed.
+
+(* Bofill: zero step with a gradient change: the |dE| < 1e-6 guard does not fire, conditions_met = true *)
+Lemma bofill_zero_step :
+  sq 1 = 1 ->
+  BofillUpdate_conditions_met QE 1 one1 one1 v0 v1 = true /\
+  has_zero (BofillUpdate_updated_h_denoms QE 1 one1 one1 v0 v1).
+Proof.
+  intros H1. split; [reflexivity|].
+  unfold BofillUpdate_updated_h_denoms. cbv zeta. unfold vnorm.
+  unfold QE, QcEnv. cbn [fF f0 f1 fadd fmul fsub fopp fdiv finv fltb fsqrt fabs].
+  replace (dot Qc 0 Qcplus Qcmult 1 (vsub Qc Qcminus v1 (matvec Qc 0 Qcplus Qcmult 1 one1 v0))
+               (vsub Qc Qcminus v1 (matvec Qc 0 Qcplus Qcmult 1 one1 v0))) with 1 by (vm_compute; reflexivity).
+  rewrite H1.
+  match goal with |- context [Qcltb 1 ?c] => replace (Qcltb 1 c) with false by (vm_compute; reflexivity) end.
+  cbn [app]. constructor. vm_compute. reflexivity.
+Qed.
+
+(* Flowchart: zero step: both criteria are 0/0 (NaN in IEEE: every comparison false; x/0 = 0 here: also
+   false against -0.1 and 0.1), so the PSB branch is taken and its divisor s.s is 0.  The first two
+   entries of the divisor list are the criteria divisors; skipn 2 = divisors of the selected branch. *)
+Lemma flowchart_zero_step :
+  sq 0 = 0 -> sq 1 = 1 ->
+  FlowchartUpdate_conditions_met QE 1 one1 one1 v0 v1 = true /\
+  has_zero (skipn 2 (FlowchartUpdate_updated_h_denoms QE 1 one1 one1 v0 v1)).
+Proof.
+  intros H0 H1. split; [reflexivity|].
+  unfold FlowchartUpdate_updated_h_denoms. cbv zeta. cbn [app skipn].
+  unfold vnorm, QE, QcEnv. cbn [fF f0 f1 fadd fmul fsub fopp fdiv finv fltb fsqrt fabs].
+  replace (dot Qc 0 Qcplus Qcmult 1 v0 v0) with 0 by (vm_compute; reflexivity).
+  replace (dot Qc 0 Qcplus Qcmult 1 v1 v1) with 1 by (vm_compute; reflexivity).
+  replace (dot Qc 0 Qcplus Qcmult 1 (vsub Qc Qcminus v1 (matvec Qc 0 Qcplus Qcmult 1 one1 v0))
+               (vsub Qc Qcminus v1 (matvec Qc 0 Qcplus Qcmult 1 one1 v0))) with 1 by (vm_compute; reflexivity).
+  rewrite H0, H1.
+  match goal with |- context [Qcltb ?a ?b] =>
+    replace (Qcltb a b) with false by (vm_compute; reflexivity) end.
+  match goal with |- context [Qcltb ?a ?b] =>
+    replace (Qcltb a b) with false by (vm_compute; reflexivity) end.
+  constructor. vm_compute. reflexivity.
+Qed.
+
+(* BFGS-SR1: zero step, and also the exactly quadratic case y = H s (z = 0) *)
+Lemma bfgs_sr1_zero_step :
+  BFGSSR1Update_conditions_met QE 1 one1 one1 v0 v1 = true /\
+  has_zero (BFGSSR1Update_updated_h_denoms QE 1 one1 one1 v0 v1).
+Proof.
+  split; [reflexivity|]. unfold BFGSSR1Update_updated_h_denoms. cbv zeta. cbn [app].
+  constructor. vm_compute. reflexivity.
+Qed.
+Lemma bfgs_sr1_exact_quadratic :
+  BFGSSR1Update_conditions_met QE 1 one1 one1 v1 v1 = true /\
+  has_zero (BFGSSR1Update_updated_h_denoms QE 1 one1 one1 v1 v1).
+Proof.
+  split; [reflexivity|]. unfold BFGSSR1Update_updated_h_denoms. cbv zeta. cbn [app].
+  do 2 apply Exists_cons_tl. constructor. vm_compute. reflexivity.
+Qed.
+
+(* SR1 rejects the zero step *)
+Lemma sr1_zero_step_rejected : sq 0 = 0 -> SR1Update_conditions_met QE 1 one1 one1 v0 v1 = false.
+Proof.
+  intros H0. unfold SR1Update_conditions_met. cbv zeta. unfold vnorm, QE, QcEnv.
+  cbn [fF f0 f1 fadd fmul fsub fopp fdiv finv fltb fsqrt fabs].
+  replace (dot Qc 0 Qcplus Qcmult 1 v0 v0) with 0 by (vm_compute; reflexivity).
+  rewrite H0.
+  match goal with |- context [Qcabs ?d] => replace d with 0 by (vm_compute; reflexivity) end.
+  rewrite Qcabs_0.
+  match goal with |- Qcltb ?a 0 = false => replace a with 0 by ring end. reflexivity.
+Qed.
+End QcDegenerate.
+
+(* the rational environment has characteristic 0 *)
+Lemma QcEnv_ofPos_pos sq mi eg p : (0 < ofPos (QcEnv sq mi eg) p)%Qc.
+Proof.
+  induction p as [q IH|q IH|]; cbn [ofPos]; [| |reflexivity];
+  set (x := ofPos _ q) in *; cbn [QcEnv f1 fadd fmul fF] in *; unfold Qclt in *;
+  cbn [this Qcplus Qcmult Q2Qc] in *; rewrite !Qred_correct.
+  all: change (this (Q2Qc 0)) with (Qred 0) in *; change (Qred 1) with 1%Q; rewrite ?Qred_correct in *; nra.
+Qed.
+Lemma QcEnv_char0 sq mi eg : char0 (QcEnv sq mi eg).
+Proof.
+  intros p Hc. pose proof (QcEnv_ofPos_pos sq mi eg p) as H. rewrite Hc in H.
+  apply (Qclt_not_le _ _ H). cbn [QcEnv f0]. apply Qcle_refl.
 Qed.
